@@ -37,6 +37,45 @@ impl MarkdownFormatter {
         display_path(path, self.project_root.as_deref())
     }
 
+    /// Text on a single line: a line break inside a file name or a reason would end the table row
+    /// (and let the rest of the text pose as a row of its own).
+    fn one_line(text: &str) -> String {
+        text.replace("\r\n", " ").replace(['\n', '\r'], " ")
+    }
+
+    /// An inline code span showing `text` literally. The fence is one backtick longer than the
+    /// longest backtick run of the text (a plain name keeps the usual single backticks); inside a
+    /// table, pipes are written `\|`, which the table parser reads back as `|` before the span.
+    fn code_span(text: &str, in_table: bool) -> String {
+        let mut body = Self::one_line(text);
+        if in_table {
+            body = body.replace('|', "\\|");
+        }
+        let longest_run = body
+            .split(|c| c != '`')
+            .map(str::len)
+            .max()
+            .unwrap_or_default();
+        if longest_run == 0 {
+            return format!("`{body}`");
+        }
+        let fence = "`".repeat(longest_run + 1);
+        format!("{fence} {body} {fence}")
+    }
+
+    /// Plain text of a table cell: one line, with the characters that would end the cell or open
+    /// a code span (and the backslash that escapes them) backslash-escaped.
+    fn cell_text(text: &str) -> String {
+        let mut escaped = String::with_capacity(text.len());
+        for ch in Self::one_line(text).chars() {
+            if matches!(ch, '\\' | '|' | '`') {
+                escaped.push('\\');
+            }
+            escaped.push(ch);
+        }
+        escaped
+    }
+
     const fn status_icon(result: &CheckResult) -> &'static str {
         match result {
             CheckResult::Passed { .. } => "✅",
@@ -109,7 +148,7 @@ impl OutputFormatter for MarkdownFormatter {
             for result in &non_passed {
                 let icon = Self::status_icon(result);
                 let status = Self::status_text(result);
-                let path = self.display_path(result.path());
+                let path = Self::code_span(&self.display_path(result.path()), true);
                 // Use raw_stats for display (before skip_comments/skip_blank adjustments)
                 let raw = result.raw_stats();
                 let total = raw.total;
@@ -118,11 +157,13 @@ impl OutputFormatter for MarkdownFormatter {
                 let code = raw.code;
                 let comment = raw.comment;
                 let blank = raw.blank;
-                let reason = result.override_reason().unwrap_or("-");
+                let reason = result
+                    .override_reason()
+                    .map_or_else(|| "-".to_string(), Self::cell_text);
 
                 writeln!(
                     output,
-                    "| {icon} {status} | `{path}` | {total} | {sloc} | {limit} | {code} | {comment} | {blank} | {reason} |"
+                    "| {icon} {status} | {path} | {total} | {sloc} | {limit} | {code} | {comment} | {blank} | {reason} |"
                 )
                 .ok();
             }
@@ -143,7 +184,12 @@ impl OutputFormatter for MarkdownFormatter {
 
                     for result in with_suggestions {
                         if let Some(suggestion) = result.suggestions() {
-                            writeln!(output, "#### `{}`\n", self.display_path(result.path())).ok();
+                            writeln!(
+                                output,
+                                "#### {}\n",
+                                Self::code_span(&self.display_path(result.path()), false)
+                            )
+                            .ok();
                             writeln!(output, "| Suggested File | Lines | Functions |").ok();
                             writeln!(output, "|----------------|------:|-----------|").ok();
 
@@ -151,12 +197,15 @@ impl OutputFormatter for MarkdownFormatter {
                                 let funcs = if chunk.functions.is_empty() {
                                     "-".to_string()
                                 } else {
-                                    chunk.functions.join(", ")
+                                    Self::cell_text(&chunk.functions.join(", "))
                                 };
+                                let name = format!("{}.*", chunk.suggested_name);
                                 writeln!(
                                     output,
-                                    "| `{}.*` | ~{} | {} |",
-                                    chunk.suggested_name, chunk.line_count, funcs
+                                    "| {} | ~{} | {} |",
+                                    Self::code_span(&name, true),
+                                    chunk.line_count,
+                                    funcs
                                 )
                                 .ok();
                             }
